@@ -238,7 +238,7 @@ _ADD4 = {
  "C09": " + the MTU configured while the connection objects exist (every second cell of the both-API grid)",
  "C05": " + the MTU configured while the connection objects exist + a scripted starvation history (open finding large-message-starved-by-retries)",
  "C10": " + connected clients that transmit their challenge response again + a connected peer that bundles a CLIENT_HELLO-typed message with application data (clause L_token)",
- "C11": " + block lists in the spellings a dual-stack transport reports, judged against the operator's own record; the lock-stepped world is total when the server loop dies",
+ "C11": " + block lists in the spellings a dual-stack transport reports, judged against the operator's own record; the lock-stepped world is total when the server loop dies + bytes in / bytes out at the small end of the MTU range (open finding hello-amplification-at-small-mtu)",
  "C12": " + clause T_stayup (a CONNECTED client over a healthy link stays CONNECTED) + first answer slower than the client's message time-out with the client at its own frame rate + a server that sends state to every client on every tick + clause T_clisilent with an application that polls its client more slowly than the server sends (one update() per frame)",
  "C13": " + objects with container-annotated fields set to None / empty / filled + a subclass that adds a field to a Serializable base class",
  "C14": " (the observation loop stops after three watchdog hits)",
